@@ -158,61 +158,27 @@ pub fn run(prop: &str, args: &Args) -> LegResult {
         };
     }
 
-    // --- determinism self-test across processes (and, opportunistically, across hash seeds)
-    let st_n = if args.no_selftest { 0 } else if args.tier == "thorough" { 2000 } else { 300 };
+    // --- determinism self-test across processes: next to every shard process of the batch a second
+    // process re-executes the first runs of that shard; the two event-log hashes must agree
+    let st_n: u64 = if args.no_selftest { 0 } else if args.tier == "thorough" { 250 } else { 40 };
     let mut selftest_note = String::from("skipped");
-    if st_n > 0 {
-        let mut hs = vec![];
-        let mut sut_abort: Option<String> = None;
-        let legs: Vec<(String, Option<PathBuf>, Option<&str>)> = vec![("process A".into(), None, None), ("process B".into(), None, None)];
-        // (the hash-seed variation is exercised by C38's own child-process leg, where the shim is
-        // preloaded into the test binary only, never into cargo/rustc)
-        let mut children = vec![];
-        for (name, pre, hseed) in &legs {
-            let mut envs = base.clone();
-            envs.push(("VERIF_E5_HASHES", st_n.to_string()));
-            if let Some(h) = hseed {
-                envs.push(("VERIF_HASH_SEED", h.to_string()));
-            }
-            let mut c = cargo_test(prop, &envs, pre.as_deref());
-            let child = c.stdin(Stdio::null()).stdout(Stdio::piped()).stderr(Stdio::piped()).spawn();
-            children.push((name.clone(), child));
-        }
-        for (name, child) in children {
-            let out = match child.and_then(|c| c.wait_with_output()) {
-                Ok(o) => o,
-                Err(e) => return fail2(format!("self-test {name}: {e}")),
-            };
-            let so = String::from_utf8_lossy(&out.stdout);
-            let se = String::from_utf8_lossy(&out.stderr);
-            match hash_line(&so) {
-                Some(h) if out.status.success() => hs.push((name, h)),
-                _ => match panic_site(&se) {
-                    // aborted by a panic inside the code under test: the batch below reports it
-                    Some((loc, _)) if site_in_sut(&loc) => sut_abort = Some(loc),
-                    _ => return fail2(format!("self-test {name} failed:\n{}\n{}", tail(&so, 15), tail(&se, 25))),
-                },
-            }
-        }
-        if let Some(loc) = &sut_abort {
-            selftest_note = format!("not completed: a self-test process was aborted by a panic at {loc} (a crash of the code under test; see the batch)");
-        } else if hs.iter().any(|(_, h)| *h != hs[0].1) {
-            if prop == "C38" {
-                // for C38 this *is* the property: reported by the test's own cross-process scenario
-                selftest_note = format!("MISMATCH {hs:?}");
-            } else {
-                return fail2(format!("determinism self-test failed across processes: {hs:?}"));
-            }
-        } else {
-            selftest_note = format!("{st_n} runs x {} fresh processes{}: identical event-log hashes", hs.len(), if hs.len() > 2 { " (two of them under different LD_PRELOADed hash seeds)" } else { "" });
-        }
-        println!("selftest(e2e): {selftest_note}");
-    }
-
     // --- the batch, in shard processes
     let k = args.threads.clamp(1, 8) as u64;
     let outdir = engine_dir().join("target").join("e2e-legs");
     let _ = std::fs::create_dir_all(&outdir);
+    let mut hash_children = vec![];
+    if st_n > 0 {
+        for i in 0..k {
+            let mut envs = base.clone();
+            envs.push(("VERIF_E5_SHARD", format!("{i}/{k}")));
+            envs.push(("VERIF_E5_HASHES", st_n.to_string()));
+            if let Some(r) = args.runs {
+                envs.push(("VERIF_E5_RUNS", r.to_string()));
+            }
+            let mut c = cargo_test(prop, &envs, None);
+            hash_children.push((i, c.stdin(Stdio::null()).stdout(Stdio::piped()).stderr(Stdio::piped()).spawn()));
+        }
+    }
     let mut legs = vec![];
     let mut crashes: Vec<Value> = vec![];
     let mut starts: Vec<u64> = vec![0; k as usize];
@@ -229,6 +195,7 @@ pub fn run(prop: &str, args: &Args) -> LegResult {
             envs.push(("VERIF_E5_SHARD", format!("{i}/{k}")));
             envs.push(("VERIF_E5_OUT", out.display().to_string()));
             envs.push(("VERIF_E5_START", starts[i as usize].to_string()));
+            envs.push(("VERIF_E5_HASHN", st_n.to_string()));
             if let Some(r) = args.runs {
                 envs.push(("VERIF_E5_RUNS", r.to_string()));
             }
@@ -295,6 +262,50 @@ pub fn run(prop: &str, args: &Args) -> LegResult {
             legs.push(v);
         }
         todo = again;
+    }
+    if st_n > 0 {
+        let mut compared = 0;
+        let mut aborted = None;
+        let mut mismatch = vec![];
+        for (i, child) in hash_children {
+            let out = match child.and_then(|c| c.wait_with_output()) {
+                Ok(o) => o,
+                Err(e) => return fail2(format!("self-test process {i}: {e}")),
+            };
+            let so = String::from_utf8_lossy(&out.stdout);
+            let se = String::from_utf8_lossy(&out.stderr);
+            let Some(h) = hash_line(&so).filter(|_| out.status.success()) else {
+                match panic_site(&se) {
+                    Some((loc, _)) if site_in_sut(&loc) => {
+                        aborted = Some(loc);
+                        continue;
+                    }
+                    _ => return fail2(format!("self-test process {i} failed:\n{}\n{}", tail(&so, 15), tail(&se, 25))),
+                }
+            };
+            // the batch process of the same shard (only comparable when it was not restarted)
+            let leg = legs.iter().find(|l| l["shard"][0].as_u64() == Some(i));
+            if let Some(l) = leg {
+                if starts[i as usize] == 0 {
+                    compared += 1;
+                    if l["selftest_hash"].as_str() != Some(h.as_str()) {
+                        mismatch.push(format!("shard {i}: batch process {:?} vs second process {h:?}", l["selftest_hash"].as_str().unwrap_or("")));
+                    }
+                }
+            }
+        }
+        if !mismatch.is_empty() {
+            if prop == "C38" {
+                selftest_note = format!("MISMATCH {mismatch:?} (for C38 this is the property itself; see its cross-process scenario)");
+            } else {
+                return fail2(format!("determinism self-test failed across processes: {mismatch:?}"));
+            }
+        } else if let Some(loc) = aborted {
+            selftest_note = format!("partly not completed: a self-test process was aborted by a panic at {loc} (a crash of the code under test; see the batch); {compared} shard pairs identical");
+        } else {
+            selftest_note = format!("first {st_n} runs of each of {compared} shards executed in two fresh processes: identical event-log hashes");
+        }
+        println!("selftest(e2e): {selftest_note}");
     }
     if legs.is_empty() {
         // every shard crashed repeatedly: still report the crash classes found
